@@ -110,6 +110,12 @@ func cmdVF(args []string) {
 			}
 			for _, o := range r.Obls {
 				st := "ok  "
+				if o.Kind == "pathcover" {
+					if o.Res.Status == "unsat" {
+						fmt.Printf("   dead %-60s (unreachable return path)\n", o.Name)
+					}
+					continue
+				}
 				if !o.ok() {
 					st = "FAIL"
 					bad++
